@@ -1,5 +1,6 @@
 import Rscp.Props.C08
 import Rscp.Props.C08b
+import Rscp.Props.C08c
 import Rscp.Tie.Client
 import Rscp.Tie.Reader
 
@@ -13,6 +14,7 @@ import Rscp.Tie.Reader
 #print axioms Rscp.Props.C08.recovery
 #print axioms Rscp.Props.C08.receive_is_tokObs
 #print axioms Rscp.Props.C08.layers_agree
+#print axioms Rscp.Props.C08.healthy_connection_end_to_end
 #print axioms Rscp.Tie.Client.shape_rscp_NewClient
 #print axioms Rscp.Tie.Client.shape_rscp_Client_resetCipher
 #print axioms Rscp.Tie.Client.shape_rscp_Client_send
@@ -36,6 +38,7 @@ import Rscp.Tie.Reader
 #print axioms Rscp.Tie.Reader.shape_rscp_DataType_newEmpty
 #print axioms Rscp.Tie.Reader.shape_rscp_DataType_IsADataType
 #print axioms Rscp.Tie.Reader.shape_rscp_dereferencePtr
+#print axioms Rscp.Tie.Reader.shape_rscp_var_newEmptyMap
 #print axioms Rscp.Tie.Reader.leaf_readHeader_badMagic_src
 #print axioms Rscp.Tie.Reader.leaf_readHeader_badMagic_args
 #print axioms Rscp.Tie.Reader.leaf_readHeader_badCtrl_src
